@@ -9,6 +9,7 @@ portfolio; in mode 'native' the very same text is a run-time contract check
 (used for counterexample replay, the CPython cross-check and bounded
 stand-ins).
 """
+import json
 import math
 import random
 import time
@@ -236,6 +237,21 @@ class Ctx(object):
 
     def note(self, s):
         self.notes.append(s)
+
+    def case(self, desc, nontrivial=True, count=1):
+        """bounded contracts: count explored case(s) (a graph, a file, a
+        value ...); count > 1 = an enumerated block of distinct cases.  The
+        first few descriptions become evidence samples."""
+        self.n_cases = getattr(self, 'n_cases', 0) + count
+        if nontrivial:
+            if count == 1:
+                keys = self.__dict__.setdefault('case_keys', set())
+                keys.add(desc if isinstance(desc, str) else json.dumps(desc, sort_keys=True, default=str))
+            else:
+                self.bulk_distinct = getattr(self, 'bulk_distinct', 0) + count
+        sm = self.__dict__.setdefault('case_samples', [])
+        if len(sm) < 3:
+            sm.append(desc)
 
 
 def _j(x):
@@ -482,6 +498,9 @@ def run_native(contract, config, seed=0, model=None, tries=50, tol=1e-7, all_fai
                                  inputs=ctx.drawn, seed=seed * 7919 + k)
         if ctx.native_failures:
             return 'failed', dict(failures=ctx.native_failures if all_failures else ctx.native_failures[:200], inputs=ctx.drawn, checked=ctx.native_checked,
-                                  seed=seed * 7919 + k)
-        return 'held', dict(checked=ctx.native_checked, inputs=ctx.drawn, seed=seed * 7919 + k)
+                                  seed=seed * 7919 + k, cases=getattr(ctx, 'n_cases', 0), distinct_cases=len(getattr(ctx, 'case_keys', ())) + getattr(ctx, 'bulk_distinct', 0),
+                                  case_samples=getattr(ctx, 'case_samples', []))
+        return 'held', dict(checked=ctx.native_checked, inputs=ctx.drawn, seed=seed * 7919 + k,
+                            cases=getattr(ctx, 'n_cases', 0), distinct_cases=len(getattr(ctx, 'case_keys', ())) + getattr(ctx, 'bulk_distinct', 0),
+                            case_samples=getattr(ctx, 'case_samples', []))
     return last or ('rejected', {})
